@@ -122,6 +122,8 @@ def generic_cmp(I, ctx, a, b, crate):
         return generic_cmp(I, ctx, a.fields[0], b.fields[0], crate) if a.variant == "Some" else EnumV("Ordering", "Equal")
     if isinstance(a, EnumV) and isinstance(b, EnumV) and a.ty == b.ty == "Ordering":
         return int_cmp(ctx, I.discriminant(a), I.discriminant(b))
+    if isinstance(a, Struct) and isinstance(b, Struct) and a.ty == b.ty == "Reverse":
+        return generic_cmp(I, ctx, b.fields[0], a.fields[0], crate)
     if isinstance(a, (EnumV, Struct)) and type(a) is type(b) and a.ty == b.ty and _derives(I, a.ty, ("PartialOrd", "Ord"), crate):
         # #[derive(PartialOrd)]: variants by discriminant, then fields lexicographically
         if isinstance(a, EnumV) and a.variant != b.variant:
@@ -190,6 +192,9 @@ def iter_of(I, ctx, v, by_ref):
         if r is not None:
             _store(I, ctx, v, r)          # `next(&mut range)`: the range object itself is the iterator state
             return r
+        if isinstance(tgt, Struct) and tgt.ty in ("BTreeMap", "BTreeSet"):
+            from . import collections
+            return (collections.m_btreemap if tgt.ty == "BTreeMap" else collections.m_btreeset)(I, ctx, f"{tgt.ty}::iter", [v], None)
         if isinstance(tgt, EnumV) and tgt.ty in ("Option", "Result"):
             return make_iter([Ref(v.cell, v.path + (("d", tgt.variant), ("f", 0)))] if tgt.variant in ("Some", "Ok") and by_ref else ([tgt.fields[0]] if tgt.variant in ("Some", "Ok") else []))
         if isinstance(tgt, str): return make_iter(list(tgt.encode()))
@@ -208,6 +213,7 @@ def iter_of(I, ctx, v, by_ref):
     r = _range_of(v)
     if r is not None: return r
     if isinstance(v, EnumV) and v.ty in ("Option", "Result"): return make_iter([v.fields[0]] if v.variant in ("Some", "Ok") else [])
+    if isinstance(v, Struct) and v.ty in ("BTreeMap", "BTreeSet"): return make_iter(list(v.fields[0].items))
     raise Unsupported(f"iter over {v!r}")
 
 
@@ -253,6 +259,11 @@ def m_to_string(I, ctx, callee, args, crate):
 
 @M.on(r"^(std|core|alloc)::(string::String|str)::(as_str|as_bytes|into_bytes|as_mut_str|into_boxed_str|trim)$|^core::str::(as_bytes|trim)$|^(std::string::String|str)::(as_str|as_bytes|into_bytes)$")
 def m_str_ident(I, ctx, callee, args, crate):
+    if callee.endswith("trim"):
+        v = I.deref(ctx, args[0])
+        if isinstance(v, str): return v.strip()
+        # abstract strings are assumed to carry no surrounding whitespace (only cw20 UpdateMarketing trims, to detect blank input)
+        return args[0]
     return I.deref(ctx, args[0]) if callee.endswith("into_bytes") else args[0]
 
 
@@ -329,8 +340,17 @@ def m_default(I, ctx, callee, args, crate):
 
 
 def default_of(I, ctx, ty, crate, callee=None):
+    ty = ty.strip()
+    if ty.startswith("(") and ty.endswith(")"):
+        inner = ty[1:-1].strip()
+        return tuple(default_of(I, ctx, t, crate) for t in split_top(inner) if t.strip()) if inner else ()
+    if ty.startswith("["):
+        m_ = re.match(r"^\[(.*); (\d+)\]$", ty)
+        if m_: return VecV([default_of(I, ctx, m_.group(1), crate)] * int(m_.group(2)))
     sn = simple_name(ty)
-    if sn in INTMAX or sn in ("Uint128", "Uint64", "Decimal", "Timestamp"): return 0
+    if sn in INTMAX or sn in SINT or sn in ("Uint128", "Uint64", "Decimal", "Timestamp"): return 0
+    if sn == "char": return Opaque("char", "\0")
+    if sn in ("BTreeMap", "BTreeSet"): return Struct(sn, [VecV([])], ["items"])
     if sn == "bool": return False
     if sn in ("String", "str"): return ""
     if sn in ("Vec", "Binary"): return VecV([])
@@ -450,7 +470,13 @@ def convert_err(I, ctx, e, src_e, dst_e, crate):
     if same_type(I, src_e, dst_e): return e
     f = find_from(I, src_e, dst_e, crate)
     if f is not None: return I.call_mir(ctx, f, [e])
-    if simple_name(dst_e) == "StdError": return EnumV("StdError", "Converted", (e,))
+    if simple_name(dst_e) == "StdError":
+        # cosmwasm-std's `impl From<X> for StdError` (no MIR: registry crate) wraps the source in the variant of the same kind
+        kind = {"OverflowError": "Overflow", "DivideByZeroError": "DivideByZero", "ConversionOverflowError": "ConversionOverflow",
+                "Utf8Error": "InvalidUtf8", "FromUtf8Error": "InvalidUtf8", "VerificationError": "VerificationErr",
+                "RecoverPubkeyError": "RecoverPubkeyErr"}.get(simple_name(src_e))
+        if kind: return EnumV("StdError", kind, (e,), ("source",))
+        return EnumV("StdError", "Converted", (e,))
     return EnumV(simple_name(dst_e), "From_" + simple_name(src_e), (e,))
 
 
@@ -741,6 +767,7 @@ def m_slice(I, ctx, callee, args, crate):
     if meth in ("to_vec", "into_vec", "to_owned"):
         if isinstance(v, VecV): return VecV([I.deref(ctx, x) if isinstance(x, Ref) else x for x in v.items])
         return v
+    if isinstance(v, str) and meth not in ("len", "is_empty"): v = VecV(list(v.encode()))      # bytes of a literal string
     if is_str(v) or isinstance(v, (SymBin, JsonBin)):
         if meth == "len": return ctx.str_len(v) if is_str(v) else bin_len(ctx, v)
         if meth == "is_empty": return (ctx.str_len(v) if is_str(v) else bin_len(ctx, v)) == 0
@@ -853,6 +880,9 @@ def m_slice(I, ctx, callee, args, crate):
         _store(I, ctx, args[0], VecV(_sort(I, ctx, list(v.items), lambda a, b: _cmp_clo(I, ctx, args[1], a, b) == "Greater"))); return ()
     if meth == "reverse": _store(I, ctx, args[0], VecV(list(reversed(v.items)))); return ()
     if meth == "concat":
+        parts = [I.deref(ctx, x) for x in v.items]
+        if parts and all(is_str(x) or isinstance(x, FmtStr) for x in parts):
+            return "".join(parts) if all(isinstance(x, str) for x in parts) else FmtStr(parts)
         out = []
         for x in v.items:
             x = I.deref(ctx, x)
@@ -1174,7 +1204,14 @@ def m_iter(I, ctx, callee, args, crate):
             o = generic_cmp(I, ctx, x, best, crate).variant
             if (meth == "min" and o == "Less") or (meth == "max" and o != "Less"): best = x
         return Some(best)
-    if meth == "peekable" or meth == "inspect": return it
+    if meth == "peekable": return it
+    if meth == "inspect":
+        f = args[1]
+        def nxt(I2, c2):
+            r = it.next(I2, c2)
+            if r.variant == "Some": I2.call_value(c2, f, [Ref(Cell("inspect", r.fields[0]))])
+            return r
+        return IterV(nxt)
     if meth in ("try_fold", "try_for_each"):
         # the closure yields a Try value (Result / Option / ControlFlow): stop at the first residual, as the library does
         g = last_generics(callee)
@@ -1287,13 +1324,16 @@ def _finish_collect(I, ctx, items, target):
     if head == "String":
         if all(isinstance(x, str) for x in items): return "".join(items)
         return FmtStr(tuple(items))
-    if head in ("HashSet", "BTreeSet", "HashMap", "BTreeMap"):
-        raise Unsupported(f"collect into {head}")
+    if head in ("BTreeSet", "BTreeMap"):
+        from . import collections
+        return collections.build(I, ctx, head, items, None)
+    if head in ("HashSet", "HashMap"):
+        raise Unsupported(f"collect into {head} (iteration order is unspecified)")
     return VecV(items)
 
 
 # ------------------------------------------------------------------ strings
-@M.on(r"^(core::str|std::string::String|alloc::string::String|str)::(len|is_empty|starts_with|ends_with|contains|to_lowercase|to_uppercase|to_string|to_owned|new|from_utf8|from_utf8_lossy|push_str|get|splitn|split|chars|bytes|eq_ignore_ascii_case|is_char_boundary|strip_prefix|find|with_capacity|push|from_utf8_unchecked|trim_start_matches|trim_end_matches|split_once)$")
+@M.on(r"^(core::str|std::string::String|alloc::string::String|str)::(len|is_empty|starts_with|ends_with|contains|to_lowercase|to_uppercase|to_string|to_owned|new|from_utf8|from_utf8_lossy|push_str|get|splitn|split|chars|bytes|eq_ignore_ascii_case|is_char_boundary|strip_prefix|strip_suffix|find|rfind|with_capacity|push|pop|insert_str|insert|clear|truncate|remove|from_utf8_unchecked|trim_start_matches|trim_end_matches|trim_start|trim_end|trim|split_once|rsplit_once|rsplit|split_whitespace|lines|repeat|replace|char_indices|to_ascii_lowercase|to_ascii_uppercase|is_ascii|as_mut_str|capacity|reserve|shrink_to_fit|into_boxed_str|concat|join)$")
 def m_str(I, ctx, callee, args, crate):
     meth = strip_generics(callee).split("::")[-1]
     if meth in ("new", "with_capacity"): return ""
@@ -1408,10 +1448,29 @@ def m_parse(I, ctx, callee, args, crate):
     if ty == "Version":
         from . import cosmwasm
         return cosmwasm.parse_version(I, ctx, s)
+    if int_bits(ty) is not None and isinstance(s, FmtStr):
+        parts = [p[1] if isinstance(p, tuple) and len(p) == 2 and p[0] == "arg" else p for p in s.parts]
+        parts = [p for p in parts if not (isinstance(p, str) and p == "")]
+        if len(parts) == 2 and parts[0] == "-" and is_int(parts[1]) and not isinstance(parts[1], bool):
+            lo_, hi_ = int_bounds(ty)
+            if ty in INTMAX: return Err(Opaque("ParseIntError"))
+            return Ok(-parts[1]) if ctx.branch(zand(parts[1] >= 0, -parts[1] >= lo_), "parse-fits") else Err(Opaque("ParseIntError"))
+        if len(parts) == 1 and is_int(parts[0]) and not isinstance(parts[0], bool):
+            lo_, hi_ = int_bounds(ty)
+            return Ok(parts[0]) if ctx.branch(zand(parts[0] >= lo_, parts[0] < hi_), "parse-fits") else Err(Opaque("ParseIntError"))
+        raise Unsupported(f"str::parse of a formatted string {s!r}")
+    if int_bits(ty) is not None and isinstance(s, str):
+        # Rust's FromStr for integers: optional sign ('-' only for signed types), ASCII digits only, no whitespace, must fit
+        m_ = re.fullmatch(r"([+-]?)(\d+)", s, re.ASCII)
+        if not m_ or (m_.group(1) == "-" and ty in INTMAX): return Err(Opaque("ParseIntError"))
+        v_ = int(m_.group(2)) * (-1 if m_.group(1) == "-" else 1)
+        lo_, hi_ = int_bounds(ty)
+        return Ok(v_) if lo_ <= v_ < hi_ else Err(Opaque("ParseIntError"))
     if ty in INTMAX or ty in ("Uint128",):
         if isinstance(s, str):
-            try: return Ok(int(s))
-            except ValueError: return Err(Opaque("ParseIntError"))
+            m_ = re.fullmatch(r"\+?(\d+)", s, re.ASCII)
+            if not m_ or int(m_.group(1)) >= U128: return Err(Opaque("ParseIntError"))
+            return Ok(int(m_.group(1)))
         a = ctx.atom_of(s)
         key = f"parse[{a.idx}]"
         if not ctx.branch(ctx.fresh_bool(key + ".ok", unique=False) if key + ".ok" not in ctx.vars else ctx.vars[key + ".ok"], "parse"):
@@ -1443,7 +1502,14 @@ def m_box(I, ctx, callee, args, crate):
     if "assume_init_into_vec" in callee:
         v = I.deref(ctx, args[0])
         return v
+    if strip_generics(callee).split("::")[-1] == "new" and not isinstance(args[0], (Ref, Closure, FnItem)):
+        # a heap cell: `*b = x` (compiled to a write through the box's raw pointer) must reach the boxed value
+        return Ref(Cell("box", args[0]))
     return args[0]
+
+
+@M.on(r"^<(std::boxed::|alloc::boxed::)?Box<.*> as Drop>::drop$|^<(std::vec::|alloc::vec::)?Vec<.*> as Drop>::drop$|^<(std::string::)?String as Drop>::drop$")
+def m_std_drop(I, ctx, callee, args, crate): return ()
 
 
 @M.on(r"^must_use$|^core::hint::must_use$|^std::hint::must_use$|^core::hint::black_box$")
@@ -1457,6 +1523,15 @@ def m_panic(I, ctx, callee, args, crate):
     if "cold_path" in callee or "assume" in callee.split("::")[-1]: return ()
     if "likely" in callee or "unlikely" in callee: return args[0]
     raise Panic(callee)
+
+
+@M.on(r"^<String as (std::ops::)?(Add|AddAssign)<&str>>::(add|add_assign)$")
+def m_string_add(I, ctx, callee, args, crate):
+    a, b = I.deref(ctx, args[0]), I.deref(ctx, args[1])
+    r = a + b if isinstance(a, str) and isinstance(b, str) else (b if a == "" else (a if b == "" else FmtStr([a, b])))
+    if callee.endswith("add_assign"):
+        _store(I, ctx, args[0], r); return ()
+    return r
 
 
 @M.on(r"^<&?(u8|u16|u32|u64|u128|usize) as (std::ops::)?(Add|Sub|Mul|Div|Rem)(<.*>)?>::(add|sub|mul|div|rem)$")
